@@ -99,7 +99,12 @@ impl ActTask for Act {
         let state = task.state();
         let mut is_next: bool = false;
         if state.is_running() {
-            let tasks = task.children();
+            // the acts created by the lifecycle hooks are not part of the act
+            let tasks = task
+                .children()
+                .into_iter()
+                .filter(|t| !t.is_event_processed())
+                .collect::<Vec<_>>();
             let mut count = 0;
 
             for task in tasks.iter() {
@@ -141,7 +146,11 @@ impl ActTask for Act {
         let task = ctx.task();
         let state = task.state();
         if state.is_running() {
-            let tasks = task.children();
+            let tasks = task
+                .children()
+                .into_iter()
+                .filter(|t| !t.is_event_processed())
+                .collect::<Vec<_>>();
             let mut count = 0;
             for t in tasks.iter() {
                 if t.state().is_error() {
